@@ -45,7 +45,11 @@ def gen_history(rng):
             acts.append(["S", node, m, pt])
         else:
             acts.append(["R", node, rng.choice(sent), pt])
-    return dict(n=n, acts=acts)
+    # vector clocks: what each node is told about the membership when it is created (always itself; often less
+    # than everybody: it then learns about the others from the messages it receives)
+    full = rng.random() < 0.5
+    members = [sorted({i} | ({*range(n)} if full else {j for j in range(n) if rng.random() < 0.4})) for i in range(n)]
+    return dict(n=n, acts=acts, members=members)
 
 
 def hb_closure(acts):
@@ -115,8 +119,9 @@ def nid(i):
 def impl_vector(c):
     from happysimulator.core.logical_clocks import VectorClock
     ids = [nid(i) for i in range(c["n"])]
-    clocks = [VectorClock(ids[i], ids) for i in range(c["n"])]
-    msgs, out = {}, []
+    members = c.get("members") or [list(range(c["n"]))] * c["n"]
+    clocks = [VectorClock(ids[i], [ids[j] for j in members[i]]) for i in range(c["n"])]
+    msgs, out, raw = {}, [], []
     for a in c["acts"]:
         ck = clocks[a[1]]
         if a[0] == "L":
@@ -127,6 +132,7 @@ def impl_vector(c):
             ck.receive(msgs[a[2]])
         snap = ck.snapshot()
         out.append([snap.get(k, 0) for k in ids])
+        raw.append(dict(snap))
     # relation checks on real objects for a sample of pairs
     rel = []
     L = len(out)
@@ -135,10 +141,11 @@ def impl_vector(c):
         step = max(1, len(pairs) // 40)
         pairs = pairs[::step]
     for i, j in pairs:
-        a = VectorClock(ids[c["acts"][i][1]], ids)
-        a._vector = dict(zip(ids, out[i]))
-        b = VectorClock(ids[c["acts"][j][1]], ids)
-        b._vector = dict(zip(ids, out[j]))
+        # the real snapshots, with exactly the keys each clock knew at that moment (key sets may differ)
+        a = VectorClock(ids[c["acts"][i][1]], list(raw[i]))
+        a._vector = dict(raw[i])
+        b = VectorClock(ids[c["acts"][j][1]], list(raw[j]))
+        b._vector = dict(raw[j])
         mg = a.merge(b).snapshot()
         rel.append([i, j, a.happened_before(b), a.is_concurrent(b), [mg.get(k, 0) for k in ids]])
     return dict(stamps=out, rel=rel)
@@ -580,6 +587,69 @@ TRUSTED = [
 ]
 
 
+# --------------------------------------------------------------------------- CRDTStore gossip (oracle only)
+def gen_store(rng):
+    n = rng.choice([2, 2, 3])
+    pn = rng.random() < 0.5
+    ops = []
+    for _ in range(rng.randint(1, 8)):
+        op = "decrement" if (pn and rng.random() < 0.35) else "increment"
+        ops.append([rng.choice([100, 100, 200, 300, 450]), rng.randrange(n), rng.randrange(2), op, rng.choice([1, 1, 2, 2, 3])])
+    return dict(n=n, pn=pn, ops=sorted(ops), seed=rng.randrange(1000), rounds=12 if n == 2 else 24)
+
+
+def impl_store(c):
+    """CRDTStores on a loss-free network: the writes, then gossip ticks on every node (push-pull with a random
+    peer), round after round.  Small amounts make VALUE ties between replicas with different states likely."""
+    import random as _r
+    from happysimulator import Event, Instant, Network, Simulation, datacenter_network
+    from happysimulator.components.crdt.crdt_store import CRDTStore
+    from happysimulator.components.crdt.g_counter import GCounter
+    from happysimulator.components.crdt.pn_counter import PNCounter
+    from hsverif.util import run_bounded
+    _r.seed(c["seed"])
+    net = Network(name="net")
+    fac = (lambda nid: PNCounter(nid)) if c["pn"] else (lambda nid: GCounter(nid))
+    stores = [CRDTStore(nid(i), network=net, crdt_factory=fac, gossip_interval=1000.0) for i in range(c["n"])]
+    for st in stores:
+        st.add_peers([p for p in stores if p is not st])
+    for i in range(c["n"]):
+        for j in range(i + 1, c["n"]):
+            net.add_bidirectional_link(stores[i], stores[j], datacenter_network(f"l{i}{j}"))
+    evs = [Event(time=Instant(t * 1_000_000), event_type="Write", target=stores[node],
+                 context={"metadata": {"key": f"k{key}", "operation": op, "value": amt}}) for t, node, key, op, amt in c["ops"]]
+    t = 1.0
+    for _ in range(c["rounds"]):
+        for st in stores:
+            evs.append(Event(time=Instant.from_seconds(t), event_type="GossipTick", target=st))
+            t += 0.25
+    sim = Simulation(end_time=Instant.from_seconds(t + 1.0), sources=[], entities=[*stores, net])
+    sim.schedule(evs)
+    _, verdict = run_bounded(sim, wall_s=30.0)
+    vals = [{k: st.crdts[k].value for k in sorted(st.crdts)} for st in stores]
+    same = all(set(st.crdts) == set(stores[0].crdts) and all(st.crdts[k] == stores[0].crdts[k] for k in st.crdts) for st in stores)
+    return dict(verdict=verdict, values=vals, same_state=same)
+
+
+def oracle_store(c, obs):
+    if obs["verdict"] != "ok":
+        return [dict(clause=f"store run ended with {obs['verdict']}")]
+    want = {}
+    for t, node, key, op, amt in c["ops"]:
+        want[f"k{key}"] = want.get(f"k{key}", 0) + (amt if op == "increment" else -amt)
+    for i, v in enumerate(obs["values"]):
+        if v != want:
+            return [dict(clause="store: after the writes stop and gossip has run, every replica reports increments minus decrements",
+                         replica=i, got=v, want=want)]
+    if not obs["same_state"]:
+        return [dict(clause="store: after gossip has run the replicas hold the same state (CRDT equality)")]
+    return []
+
+
+FAM_STORE = Family("store", "", "", "", gen_store, impl_store, lambda c, o: "", oracle_store,
+                   nontrivial=lambda c, o: len(c["ops"]) >= 2)
+
+
 def run(ctx):
     # regenerate the translation of the clock / CRDT kernels from $HS_REPO; the tie lemmas
     # (C18/GenTie.v, C18/CodeSim.v) and the c18_code_* theorems are re-checked against it
@@ -592,6 +662,9 @@ def run(ctx):
         ctx.pending_obligation_violation["translator"] = info.get("error")
     n = ctx.n(250, 6000)
     stats = [run_family(ctx, fam, n) for fam in FAMILIES]
+    from hsverif.family import run_oracle_only
+    ctx.coverage["oracle_only_families"] = [run_oracle_only(ctx, FAM_STORE, ctx.n(60, 600))]
+    ctx.assumptions.append("CRDTStore (gossip entity) has no Coq model: the store family is oracle only (loss-free network, writes then gossip rounds)")
     merge_stats(ctx, stats, "random structured histories/op schedules over 2-5 replicas; non-trivial = contains a receive/merge/remove; distinct by JSON of the input")
     ctx.finish_obligations()
     ctx.assumptions += [
@@ -600,7 +673,7 @@ def run(ctx):
 
 
 def replay(data):
-    fam = {f.name: f for f in FAMILIES}[data["detail"]["family"]]
+    fam = {f.name: f for f in FAMILIES + [FAM_STORE]}[data["detail"]["family"]]
     c = data["detail"]["case"]
     obs = fam.impl(c)
     fails = fam.oracle(c, obs)
